@@ -1,4 +1,9 @@
 """C15 — CoA and Disconnect requests are acted on only if authentic."""
+import concurrent.futures
+import os
+import re
+import subprocess
+
 import verif as V
 
 PROP = "C15"
@@ -23,6 +28,101 @@ ASSUME = [
     "(the guard int(length) > n), datagrams longer than 4096 bytes are truncated by the kernel before the code sees them",
     "layeh.com/radius (used by the RADIUS client, not by the CoA listener) is not modelled",
 ]
+
+
+# ---------------------------------------------------------------------------------------------------------------
+# The thorough trace has ~2.5 million datagrams (~1 GB).  One bngdrv process replays about 27 000 datagrams/s (the
+# Lean MD5 included), so a big trace is cut at sequence boundaries into one shard per core, the shards are replayed
+# by that many driver processes at once, and their reports are merged (sequence numbers re-based, STATS summed).
+# Sequences are independent (every one starts with `new`; the driver resets its state at every blank line).
+_orig_drv = V.Ctx.drv
+_SHARD_MIN_BYTES = 20 * 1000 * 1000
+
+
+def _sharded_drv(self, comp_drv, trace_path, drv_bin="bngdrv"):
+    try:
+        big = os.path.getsize(trace_path) >= _SHARD_MIN_BYTES
+    except OSError:
+        big = False
+    if not big:
+        return _orig_drv(self, comp_drv, trace_path, drv_bin)
+    exe = self.build_driver(drv_bin)
+    if exe is None:
+        return [], 127, "driver executable %s not built" % drv_bin
+    k = max(1, min(16, os.cpu_count() or 1))
+    target = os.path.getsize(trace_path) // k + 1
+    shards = []          # (path, number of sequences before this shard)
+    seqs_before = 0
+    cur, cur_bytes, cur_seqs, in_seq = None, 0, 0, False
+
+    def close():
+        nonlocal cur, cur_bytes, cur_seqs, seqs_before
+        if cur is not None:
+            cur.close()
+            shards.append((cur.name, seqs_before))
+            seqs_before += cur_seqs
+        cur, cur_bytes, cur_seqs = None, 0, 0
+
+    with open(trace_path, "rb") as f:
+        for line in f:
+            if cur is None:
+                cur = open("%s.shard%d" % (trace_path, len(shards)), "wb")
+            cur.write(line)
+            cur_bytes += len(line)
+            if line.strip():
+                if not line.startswith(b"#"):
+                    in_seq = True
+            else:
+                if in_seq:
+                    cur_seqs += 1
+                    in_seq = False
+                    if cur_bytes >= target:
+                        close()
+    if in_seq:
+        cur_seqs += 1
+    close()
+
+    def one(sh):
+        try:
+            with open(sh[0], "rb") as f:
+                p = subprocess.run([exe, comp_drv], stdin=f, stdout=subprocess.PIPE, stderr=subprocess.PIPE,
+                                   text=True, errors="replace", timeout=7200)
+            return p.stdout.splitlines(), p.returncode, p.stderr
+        except subprocess.TimeoutExpired:
+            return [], 124, "driver %s %s timed out on %s" % (drv_bin, comp_drv, sh[0])
+
+    with concurrent.futures.ThreadPoolExecutor(max_workers=k) as ex:
+        results = list(ex.map(one, shards))
+    out, rc, err = [], 0, ""
+    tot = {"seqs": 0, "lines": 0, "diffs": 0, "viols": 0}
+    for (path, base), (lines, r, e) in zip(shards, results):
+        rc = rc or r
+        err += e
+        stats = False
+        for l in lines:
+            if l.startswith("STATS"):
+                try:
+                    for kv in l.split()[1:]:
+                        a, b = kv.split("=", 1)
+                        tot[a] += int(b)
+                    stats = True
+                except (KeyError, ValueError):
+                    out.append(l)      # let the caller report the unparseable line
+                continue
+            m = re.match(r"(DIFF|VIOL) seq=(\d+) (.*)", l)
+            out.append("%s seq=%d %s" % (m.group(1), int(m.group(2)) + base, m.group(3)) if m else l)
+        if r == 0 and not stats:
+            rc = 1
+            err += "driver shard %s printed no STATS line\n" % path
+        try:
+            os.remove(path)
+        except OSError:
+            pass
+    out.append("STATS seqs=%d lines=%d diffs=%d viols=%d" % (tot["seqs"], tot["lines"], tot["diffs"], tot["viols"]))
+    return out, rc, err
+
+
+V.Ctx.drv = _sharded_drv
 
 
 def run(tier, seed):
